@@ -137,13 +137,10 @@ def write_job_dir(job, jobdir):
         with open(dumper, 'w') as fh:
             fh.write(DUMPER % sys.executable)
         os.chmod(dumper, 0o755)
-        for n in ('GLib-2.0.gir', 'GObject-2.0.gir', 'Gio-2.0.gir'):
-            dst = os.path.join(jobdir, 'deps', n)
-            shutil.copyfile(os.path.join(HERE, 'fixtures', n), dst)
-            os.utime(dst, (FAR_PAST, FAR_PAST))
-    dst = os.path.join(jobdir, 'deps', 'Crayon-1.0.gir')
-    shutil.copyfile(os.path.join(HERE, 'fixtures', 'Crayon-1.0.gir'), dst)
-    os.utime(dst, (FAR_PAST, FAR_PAST))
+    for n in ('GLib-2.0.gir', 'GObject-2.0.gir', 'Gio-2.0.gir', 'Crayon-1.0.gir'):
+        dst = os.path.join(jobdir, 'deps', n)
+        shutil.copyfile(os.path.join(HERE, 'fixtures', n), dst)
+        os.utime(dst, (FAR_PAST, FAR_PAST))
     j = dict(job)
     j['dir'] = jobdir
     j['deps'] = []          # children only need the main namespace; dependency GIRs are files
